@@ -149,7 +149,7 @@ def run_spec(spec, judge, want_state=False):
         s["faults"] = faults
         s["run"] = dict(spec.get("run", {}))
         if name == "plain" and intents:
-            s["run"]["count_lines"] = sorted({it["step"] for it in intents if it["kind"] == "abort"})
+            s["run"]["count_lines"] = sorted({it["step"] for it in intents if "abort" in (it.get("kinds") or [it.get("kind")])})
         try:
             hist = exec_history(s, want_state=want_state, timeout=timeout)
         except world.ChildFailure as e:
